@@ -77,7 +77,7 @@ def run_generator(gen):
     if not build():
         r = {"found": False, "error": "replay crate did not build: " + _built["log"][-500:]}
     else:
-        r = _run([gen, "search"]) or {"found": False, "error": "generator produced no result"}
+        r = _run([gen, "search"], timeout=1800) or {"found": False, "error": "generator produced no result"}
         r["kind"] = "bounded search on the real crate (not the deciding step)"
         r["replay_args"] = [gen, "run", r.get("input", "")]
     _cache[gen] = r
